@@ -74,7 +74,8 @@ class Leg(object):
             st.fixed_dictionaries({"mode": st.just("merge"), "a": nmap, "b": nmap, "numeric_sort": st.booleans(),
                                    "kinds": st.sampled_from(["dict", "attrs", "mixed"]), "arl": st.booleans()}),
             st.fixed_dictionaries({"mode": st.just("eq"), "items": lmap, "change": st.sampled_from(
-                ["none", "seqid", "start", "score", "strand", "attr-value", "attr-order", "dialect", "extra", "id-only", "keep_order"])}),
+                ["none", "seqid", "start", "score", "strand", "attr-value", "attr-order", "dialect", "extra", "id-only", "keep_order",
+                 "mutate-start-after-hash", "mutate-attr-after-hash", "mutate-back-after-hash"])}),
         )
 
     def classify(self, case):
@@ -271,6 +272,24 @@ class Leg(object):
             g = mk(attributes=dict([(k, list(v)) for k, v in items] + [("added", ["1"])]))
         elif ch == "attr-order":
             g = mk(attributes=dict((k, list(v)) for k, v in reversed(items)))
+        elif ch.startswith("mutate-"):
+            # f has been hashed (it sits in a set) and is edited afterwards; g is built afresh with the
+            # same edits.  Equality and hash are defined by the printed line *now*.
+            pool = {f}
+            h0 = hash(f)
+            if ch == "mutate-start-after-hash":
+                f.start = 7
+                g = mk(start=7)
+            elif ch == "mutate-attr-after-hash":
+                f.attributes["edited"] = ["yes"]
+                g = mk(attributes=dict([(k, list(v)) for k, v in items] + [("edited", ["yes"])]))
+            else:
+                f.end = 99
+                f.end = 50
+                g = mk()
+                if hash(f) != h0:
+                    return Failure("hash changed although the feature prints the same again", sig={"kind": "hash", "change": ch})
+            del pool
         else:
             from gffutils import constants
 
